@@ -163,12 +163,47 @@ func argBuf(slot string, x []byte) []byte {
 	return b
 }
 
-// run a decoder on an exact-capacity copy
+// roBuf: a copy of b in its own backing array — with exact capacity, or (spare) followed by 48 pattern octets of spare
+// capacity, as a slice of a receive buffer is — and a check that NOTHING in that array was written: what the caller
+// hands in to be decoded, verified or decrypted is read-only
+func roBuf(b []byte, spare bool) (in []byte, changed func() string) {
+	n := len(b)
+	extra := 0
+	if spare {
+		extra = 48
+	}
+	arr := make([]byte, n+extra)
+	copy(arr, b)
+	for i := n; i < len(arr); i++ {
+		arr[i] = 0xA7
+	}
+	snap := append([]byte{}, arr...)
+	return arr[: n : n+extra], func() string {
+		for i := range arr {
+			if arr[i] != snap[i] {
+				where := "inside the input"
+				if i >= n {
+					where = "in the spare capacity behind the input"
+				}
+				return fmt.Sprintf("octet %d %s was overwritten (%#02x -> %#02x)", i, where, snap[i], arr[i])
+			}
+		}
+		return ""
+	}
+}
+
+var roCtr int
+
+// run a decoder on an exact-capacity copy; the input must come back untouched
 func runDec(d decoder, b []byte) callRes {
-	in := exact(b)
+	in, changed := roBuf(b, false)
 	poolAdd(b)
 	setCase("dec " + d.name + " " + hx(b))
-	return guard(func() (string, error) { return d.f(in) })
+	r := guard(func() (string, error) { return d.f(in) })
+	if w := changed(); w != "" && r.kind != "panic" {
+		return callRes{kind: "panic", val: "the decoder wrote into its input: " + w}
+	}
+	return r
 }
 
 // run a decoder on a slice whose spare capacity is filled with `fill`
